@@ -79,6 +79,27 @@ R4 = {   # round 4: source files mutA / mutB of the worktree, recorded as <id>-C
  "C20-C": ("C20", False, "substitution-group members selected by explicit paths (Derivation.tla SubstPartialValid): get_element, verdict, errors and data"),
  "C20-D": ("C20", False, "xs:ID / xs:IDREF(S) documents of Identity.tla under selections that hold every row; partial validation from the document text"),
 }
+R5 = {   # round 5: source files mutA / mutB of the worktree, recorded as <id>-E / <id>-F
+ "C01-E": ("C01", False, "ContentModel.tla family NestW: a wildcard nested in an inner group next to an element declaration of the outer group (XSD 1.1; witness list)"),
+ "C01-F": ("C01", False, "ContentModel.tla family All11Q: xs:all members that must occur twice or more (XSD 1.1) in the quick tier"),
+ "C03-E": ("C03", False, "AttrDefs.tla ValidUnderSimpleType / ValidUnderAnyType: every attribute set also on an element declared xs:anyType (or without type) that xsi:type retypes to the complex type or to xs:int"),
+ "C03-F": ("C03", False, "the declarations rendered as a RESTRICTION of a base type that has only the widest wildcard (variants 8-15: groups, nested groups with the wildcard inside)"),
+ "C04-E": ("C04", False, "Validator.tla: lax wildcard of lib admitting an undeclared wrapper with a declared element inside (deviations laxok / badinlax; exposed and repaired F-C06-p, extended F-C06-h / F-C20-b)"),
+ "C04-F": ("C04", False, "documents carrying location hints to a decoy schema, the schema handed to the package-level functions as a path and as text"),
+ "C05-E": ("C05", False, "Converters.tla: repeated group of optional particles (n?, l?)*, t? with distinguishable values (F-C05-e recorded)"),
+ "C05-F": ("C05", False, "Converters.tla: list types restricted by minLength - int items (tags) and name tokens (@kws) (exposed and repaired F-C05-f; the change was rebased on the repair)"),
+ "C08-E": ("C08", False, "XSD 1.1 rendering with xpathDefaultNamespace on xs:schema and unprefixed selector / field paths"),
+ "C08-F": ("C08", True, ""),
+ "C09-E": ("C09", False, "XSD 1.1 declarations placed anywhere among the documents: a wildcard with notQName=##defined"),
+ "C09-F": ("C09", False, "XSD 1.1: two complex types whose content is a reference to the same named group, in which a wildcard precedes a competing element declaration"),
+ "C12-E": ("C12", False, "Access.tla spellings climbabs / climburl / climbenc: absolute path / file URL / percent-encoded dots through the sandbox directory"),
+ "C12-F": ("C12", False, "Access.tla main source 'textremote': the main schema as text with a remote base URL (a sandbox with a remote base admits nothing)"),
+ "C16-E": ("C16", False, "two referenced attribute groups with wildcards in one definition, each also used on its own: the operands keep their denotations (Wildcards.tla emits them)"),
+ "C16-F": ("C16", True, ""),
+ "C17-E": ("C17", True, ""), "C17-F": ("C17", True, ""),
+ "C19-E": ("C19", False, "Validator.tla: attributes typed by a pattern-restricted union and by the plain union, deviation baduc (a value no member type can read)"),
+ "C19-F": ("C19", False, "the document as the lxml payload of an envelope element (not the top of its tree)"),
+}
 SRC = {}
 if len(sys.argv) > 1 and sys.argv[1] == "2":
     R = R2
@@ -88,6 +109,9 @@ if len(sys.argv) > 1 and sys.argv[1] == "3":
 if len(sys.argv) > 1 and sys.argv[1] == "4":
     R = R4
     SRC = {k: k[:-1] + {"C": "A", "D": "B"}[k[-1]] for k in R4}
+if len(sys.argv) > 1 and sys.argv[1] == "5":
+    R = R5
+    SRC = {k: k[:-1] + {"E": "A", "F": "B"}[k[-1]] for k in R5}
 for mid, (chk, first, how) in R.items():
     pid, v = SRC.get(mid, mid).split("-")
     src = pathlib.Path(f"/tmp/mut/{pid}/out")
